@@ -5,7 +5,9 @@ to DEPTH-1 '..' segments still lands inside ROOT (and ROOT is removed after ever
 
 case = (name, base, temp, clean, filed, extensioned, fext, pre, steps[, entry])
   entry = None (plain constructor) | ("ctx", clear): `with openFiler(cls, name=..., temp=..., clear=clear, ...)` around the steps
-  pre   = [(relative path below HEAD, 'd' | 'f'), ...]  created before the Filer (non-temp only)
+  pre   = [(relative path below HEAD, 'd' | 'f' | 'lf' | 'ld'), ...]  created before the Filer (non-temp only);
+          'lf' / 'ld' = a symbolic link there whose target is a regular file / a directory with a file in it OUTSIDE the head
+          (below <sandbox>/outside, which also holds sentinel files)
   steps = [("reopen", clear, reuse, clean[, temp None|bool[, fext None|str]]) | ("close", clear) | ("doer",), ...]  applied after the constructor
           ("doer"[, route, temp]) = a FilerDoer for the filer run to its time limit by a non-real-time Doist; route do | doist | doer =
           temp injected by doist.do(temp=..), Doist(temp=..), FilerDoer(temp=..)
@@ -32,14 +34,16 @@ class Sandbox:
         self.temphead = os.path.join(deep, "tmp")
         self.alt = os.path.join(deep, "alt")
         self.home = os.path.join(deep, "home")      # $HOME while the Filer runs: an expansion of '~' lands here, visibly
-        for d in (self.head, self.temphead, self.alt, self.home):
+        self.cwd = os.path.join(deep, "cwd")        # the current directory while the Filer runs: a relative head ('', '.', 'rel') lands here
+        self.deep = deep
+        for d in (self.head, self.temphead, self.alt, self.home, self.cwd):
             os.makedirs(d)
         p = self.root
         for s in [None] + CHAIN:          # a sentinel file at every level: deleting one is always wrong
             if s:
                 p = os.path.join(p, s)
             open(os.path.join(p, "keep"), "w").close()
-        for d in (self.head, self.temphead):
+        for d in (self.head, self.temphead, self.home, self.cwd):
             open(os.path.join(d, "keep"), "w").close()
         self.tmpnames = {}
 
@@ -61,11 +65,14 @@ class Sandbox:
         except OSError:
             pass
         out = []
-        for dp, dns, fns in os.walk(self.root):
-            for n in dns:
-                out.append((tuple(x.encode("utf-8") for x in self.rel(os.path.join(dp, n))), "d"))
-            for n in fns:
-                out.append((tuple(x.encode("utf-8") for x in self.rel(os.path.join(dp, n))), "f"))
+        for dp, dns, fns in os.walk(self.root):          # (does not descend into symbolic links)
+            for n in dns + fns:
+                full = os.path.join(dp, n)
+                if os.path.islink(full):
+                    kind = "ld" if os.path.isdir(full) else "lf" if os.path.isfile(full) else "lx"      # link to dir / to file / dangling
+                else:
+                    kind = "d" if os.path.isdir(full) else "f"
+                out.append((tuple(x.encode("utf-8") for x in self.rel(full)), kind))
         return tuple(sorted(out))
 
     def destroy(self):
@@ -77,6 +84,43 @@ def cleanup_all():
 
 
 HEADSEGS = tuple(s.encode() for s in CHAIN + ["head"])
+HOMESEGS = tuple(s.encode() for s in CHAIN + ["home"])
+CWDSEGS = tuple(s.encode() for s in CHAIN + ["cwd"])
+DEEP = "/" + "/".join(CHAIN)          # the sandbox's deep directory as the model sees it (paths relative to ROOT)
+
+# head-directory tokens: "@/x" = absolute, inside the sandbox; everything else is passed literally ('', '.', 'rel/x', '~', '~/x', '../up')
+HEAD_TOKENS = ["@/head", "@/head", "@/h2", "@/h2/deeper", "", ".", "rel", "rel/x", "./rel/", "../up", "~", "~/x", "~/x/y", "@/head/../h3"]
+ALT_TOKENS = ["@/alt", "@/alt", "~", "~", "~/altx", "", "altrel", "@/alt2"]
+
+
+def tok_real(sb, tok):
+    return sb.deep + tok[1:] if tok.startswith("@") else tok
+
+
+def tok_wire(tok):
+    return (DEEP + tok[1:] if tok.startswith("@") else tok).encode("utf-8")
+
+
+def tok_resolved(tok):
+    """where a head token points, as segments below ROOT — worked out with posixpath, independently of the code and of the model"""
+    import posixpath
+    s = DEEP + tok[1:] if tok.startswith("@") else tok
+    if s == "~" or s.startswith("~/"):
+        s = DEEP + "/home" + s[1:]
+    elif not s.startswith("/"):
+        s = posixpath.join(DEEP + "/cwd", s)
+    s = posixpath.normpath(s)
+    return tuple(x.encode("utf-8") for x in s.split("/") if x)
+
+
+def gen_heads(rng):
+    """(headDirPath parameter | None, HeadDirPath class attribute, AltHeadDirPath class attribute, block, notemp)"""
+    r = rng.random()
+    param = rng.choice(HEAD_TOKENS) if r < 0.8 else None
+    cls_head = rng.choice(HEAD_TOKENS) if rng.random() < 0.6 else "@/head"
+    cls_alt = rng.choice(ALT_TOKENS)
+    block = rng.choice([None, None, "head", "head", "tail"])
+    return (param, cls_head, cls_alt, block, rng.random() < 0.08)
 TEMPSEGS = tuple(s.encode() for s in CHAIN + ["tmp"])
 
 # ---------------------------------------------------------------- generators
@@ -121,7 +165,7 @@ def gen_steps(rng):
         return []
     steps = []
     for _ in range(rng.choice([0, 0, 0, 1, 1, 2])):
-        steps.append(gen_reopen(rng, rng.random() < 0.4) if rng.random() < 0.75 else rng.choice([("doer",), ("exists",), gen_doer(rng), gen_doer(rng)]))
+        steps.append(gen_reopen(rng, rng.random() < 0.4) if rng.random() < 0.75 else rng.choice([("doer",), ("exists",), gen_doer(rng), gen_doer(rng), gen_set(rng), gen_set(rng), gen_direct(rng)]))
     steps.append(("close", rng.random() < 0.8))
     return steps
 
@@ -147,6 +191,27 @@ def gen_doer(rng):
     """a FilerDoer step with a temp value injected through one of the three routes"""
     route = rng.choice(["do", "doist", "doer"])
     return ("doer", route, True if route != "do" or rng.random() < 0.8 else False)
+
+
+ABS_NAMES = ["@/home", "@/home/sub", "@/cwd/x", "@/alt", "@/head/../home"]
+
+
+def gen_set(rng):
+    """an attribute assigned after construction (the next reopen / doer run uses it)"""
+    attr = rng.choice(["name", "base", "base", "filed", "extensioned"])
+    if attr in ("filed", "extensioned"):
+        return ("set", attr, rng.random() < 0.5)
+    r = rng.random()
+    val = rng.choice(ABS_NAMES) if r < 0.35 else gen_climb(rng)[0] if r < 0.55 else gen_name(rng) if r < 0.8 else rng.choice(["", "b", "b/c", "x.y"])
+    return ("set", attr, val)
+
+
+def gen_direct(rng):
+    """a direct call of the public remake() with its own arguments"""
+    r = rng.random()
+    name = rng.choice(ABS_NAMES) if r < 0.15 else gen_name(rng)
+    base = rng.choice(ABS_NAMES) if rng.random() < 0.25 else rng.choice(BASES)
+    return ("remake", name, base, rng.random() < 0.4, rng.random() < 0.4, rng.random() < 0.4, rng.random() < 0.3)
 
 
 def gen_reopen(rng, clean):
@@ -202,6 +267,9 @@ def gen_case(rng):
             base = ("path", base)
     pre = [] if temp else gen_pre(rng, name, base, clean, filed, extensioned, fext)
     entry, steps = gen_entry(rng, gen_steps(rng))
+    if rng.random() < 0.3:
+        # the head / alt head as parameter and as class attributes, a blocked primary head, a missing TempHeadDir
+        return (name, base, temp if rng.random() < 0.5 else False, clean, filed, extensioned, fext, [], steps, entry, gen_heads(rng))
     return (name, base, temp, clean, filed, extensioned, fext, pre, steps, entry)
 
 
@@ -243,7 +311,12 @@ def gen_revisit(rng):
                 pre.append(("/".join(parts[:-1] + [parts[-1][:-1]]), "f"))
         r = rng.random()
         if r < 0.45 and len(parts) > 1:
-            if filed or ext:
+            lk = rng.random()
+            if lk < 0.3:
+                # a symbolic link to the outside sits at the path (a FILE at the path of a directory Filer is not generated: with clean
+                # the code deliberately removes the whole holding directory then, see notes/Path.md)
+                pre.append((rel, (rng.choice(["lf", "ld"]) if lk < 0.08 else "lf") if (filed or ext) else "ld"))
+            elif filed or ext:
                 pre.append((rel, "f"))
             else:
                 pre.append((rel, "d"))
